@@ -55,7 +55,7 @@ OPS = list(SAMPLES) + ["summarize", "reset"]
 
 
 def bounds(tier):
-    return {"contest_sets": "5 singles + 10 pairs", "risk_limits": LIMITS, "ops": OPS, "depth": 3 if tier == "quick" else 4, "population_cards": N}
+    return {"contest_sets": "5 singles + 10 pairs" + (" + 10 triples" if tier == "thorough" else ""), "risk_limits": LIMITS, "ops": OPS, "depth": 3 if tier == "quick" else 4, "population_cards": N}
 
 
 def card_votes(kind_of_vote):
@@ -199,7 +199,7 @@ def judge_history(cset, limits, hist, feats=None):
         inl = [(model[(k, a)][0] <= lim[k]) for k in names for a in names[k]]
         if any(inl) and not all(inl):
             feats.add("states_some_but_not_all_confirmed")
-            if len(cset) == 2:
+            if len(cset) >= 2:
                 loose = max(cset, key=lambda k: lim[k])
                 if any(model[(loose, a)][0] > lim[loose] for a in names[loose]) and all(
                         model[(k, a)][0] <= lim[k] for k in names if k != loose for a in names[k]):
@@ -217,8 +217,12 @@ def judge_history(cset, limits, hist, feats=None):
     return ded, (trail[-1][2] if trail else None)
 
 
-def configs():
+def configs(tier="quick"):
     ks = list(KINDS)
+    if tier == "thorough":  # every triple of contests with the three limits in every order
+        for a, b, c in itertools.combinations(ks, 3):
+            for lims in itertools.permutations(LIMITS, 3):
+                yield (a, b, c), lims
     for k in ks:
         for l in LIMITS:
             yield (k,), (l,)
@@ -298,7 +302,7 @@ def run_shard(sh, rec):
 
 def explore(tier, seed):
     depth = 3 if tier == "quick" else 4
-    return core.pmap(run_shard, [("boundary", k) for k in KINDS] + [(c, l, depth) for c, l in configs()], seed, progress="C09")
+    return core.pmap(run_shard, [("boundary", k) for k in KINDS] + [(c, l, depth) for c, l in configs(tier)], seed, progress="C09")
 
 
 def run_case(case):
